@@ -10,6 +10,7 @@ def add(key, tactic, reason, **kw):
     d.update(kw)
     E.append(d)
 
+STR_TOKEN = [["lace::lexer::TokenKind", "Lit"], ["lace::lexer::LiteralKind", "Str"]]
 A1 = "A1: the sum of two in-memory sizes/offsets (a span's offset + length) does not overflow usize"
 CUR = "lace::lexer::cursor::Cursor"
 BUMP = r"lexer::cursor::Cursor::<'sess>::bump$"
@@ -62,10 +63,10 @@ add("parser::AsmParser::parse|panic:unreachable|unreachable!(internal error: ent
     "preprocess never pushes Whitespace, Comment or Eof tokens (C05.R2b)", on="C05.R2b")
 add("parser::preprocess|overflow:Sub|Sub(len(&*str_raw), 1)", "dominated-by-call",
     "str_raw is the text of a Lit(Str) token: Cursor::str only returns it for an opening and a closing '\"' (two distinct ASCII bytes), so len >= 2",
-    callee=r"lexer::cursor::Cursor::<'sess>::get_range$", outcome="any")
+    callee=r"lexer::cursor::Cursor::<'sess>::get_range$", outcome="any", variants=STR_TOKEN)
 add("parser::preprocess|index|index on &str with adt:core::ops::range::Range:Range{1, (len(&*str_raw) - 1)}", "dominated-by-call",
     "both quotes are one-byte ASCII characters, so 1 and len-1 are char boundaries and 1 <= len-1",
-    callee=r"lexer::cursor::Cursor::<'sess>::get_range$", outcome="any")
+    callee=r"lexer::cursor::Cursor::<'sess>::get_range$", outcome="any", variants=STR_TOKEN)
 add("symbol::Span::end|overflow:Add|Add(*self.offs.0, *self.len)", "assumption", A1)
 add("symbol::Span::join|overflow:Sub|Sub(end, offs)", "reviewed",
     "end = max(e1, e2) >= e1 = offs1 + len1 >= offs1 >= min(offs1, offs2) = offs (shape of join checked by C17.R4)")
